@@ -1,7 +1,7 @@
 (* Scopes/Paths.v — the specification side of C09: strict path semantics of
    the statement skeletons, as event traces (independent of the analysis).
    Conditions are opaque (either branch, any number of iterations), exceptions
-   arise only at calls (SCall) and at `raise`; `while True` (SLoop true) is
+   arise only at calls (SCall) and at `raise`; `while True` (SLoop LForever) is
    left only through break / return / raise.
    A path is described by its outcome and by the list of assignments it
    performs, in order.  No proofs in this file. *)
@@ -20,10 +20,23 @@ Fixpoint applyv (t : trace) (v : var) (d0 : node) : node :=
   | (w, d) :: r => applyv r v (if N.eqb w v then d else d0)
   end.
 
+(* at least one completed round *)
+Definition iters1_of (it : (trace -> Prop) -> trace -> Prop) (R : trace -> Prop) (t : trace) : Prop :=
+  exists t1 t2, it R t1 /\ R t2 /\ t = t1 ++ t2.
+
 (* zero or more completed rounds, each described by R *)
 Inductive iters (R : trace -> Prop) : trace -> Prop :=
 | iters_nil : iters R []
 | iters_snoc : forall t1 t2, iters R t1 -> R t2 -> iters R (t1 ++ t2).
+
+(* may the else clause run after the rounds th?  a loop that may run zero times: always; a loop
+   that runs at least once: after at least one round; `while True`: never *)
+Definition else_ok (k : lkind) (R : trace -> Prop) (th : trace) : Prop :=
+  match k with
+  | LCond => True
+  | LAlways => iters1_of iters R th
+  | LForever => False
+  end.
 
 (* path s o t : some execution of s terminates with outcome o after performing
    exactly the assignments t *)
@@ -38,9 +51,9 @@ Fixpoint path_s (s : stmt) (o : outcome) (t : trace) {struct s} : Prop :=
   | SContinue => o = OCont /\ t = []
   | SIf b e => path_b b o t \/ path_b e o t
   | SWith sup b => path_b b o t \/ (sup = true /\ o = ONorm /\ path_b b OExc t)
-  | SLoop forever b e =>
+  | SLoop k b e =>
       exists th t2, iters (fun x => path_b b ONorm x \/ path_b b OCont x) th /\ t = th ++ t2 /\
-        ((forever = false /\ path_b e o t2) \/
+        ((else_ok k (fun x => path_b b ONorm x \/ path_b b OCont x) th /\ path_b e o t2) \/
          (o = ONorm /\ path_b b OBrk t2) \/
          ((o = ORet \/ o = OExc) /\ path_b b o t2))
   | STry b hs e f =>
@@ -79,9 +92,9 @@ Fixpoint upath_s (s : stmt) (t : trace) (v : var) (u : N) {struct s} : Prop :=
   | SUse v' u' => u' = u /\ v' = v /\ t = []
   | SIf b e => upath_b b t v u \/ upath_b e t v u
   | SWith _ b => upath_b b t v u
-  | SLoop forever b e =>
+  | SLoop k b e =>
       exists th t2, iters (fun x => path_b b ONorm x \/ path_b b OCont x) th /\ t = th ++ t2 /\
-        (upath_b b t2 v u \/ (forever = false /\ upath_b e t2 v u))
+        (upath_b b t2 v u \/ (else_ok k (fun x => path_b b ONorm x \/ path_b b OCont x) th /\ upath_b e t2 v u))
   | STry b hs e f =>
       upath_b b t v u \/
       (exists ta tb, path_b b ONorm ta /\ upath_b e tb v u /\ t = ta ++ tb) \/
@@ -128,7 +141,7 @@ Fixpoint lpath_s (prot : bool) (s : stmt) (o : outcome) (t : trace) {struct s} :
   | SWith sup b =>
       (o = OExc /\ t = []) \/ (sup = true /\ o = ONorm /\ t = []) \/
       lpath_b true b o t \/ (sup = true /\ o = ONorm /\ lpath_b true b OExc t)
-  | SLoop forever b e =>
+  | SLoop k b e =>
       exists th t2, iters (fun x => lpath_b prot b ONorm x \/ lpath_b prot b OCont x) th /\ t = th ++ t2 /\
         (lpath_b prot e o t2 \/
          (o = ONorm /\ t2 = []) \/
@@ -169,7 +182,7 @@ Fixpoint lupath_s (prot : bool) (s : stmt) (t : trace) (v : var) (u : N) {struct
   | SUse v' u' => u' = u /\ v' = v /\ t = []
   | SIf b e => lupath_b prot b t v u \/ lupath_b prot e t v u
   | SWith _ b => lupath_b true b t v u
-  | SLoop forever b e =>
+  | SLoop k b e =>
       exists th t2, iters (fun x => lpath_b prot b ONorm x \/ lpath_b prot b OCont x) th /\ t = th ++ t2 /\
         (lupath_b prot b t2 v u \/ lupath_b prot e t2 v u)
   | STry b hs e f =>
